@@ -1,3 +1,4 @@
+import Lm.Inst.CoreTie
 import Lm.Inv.CoreSafe
 import Lm.Inv.CoreGuards
 /-! # C09 — Per-module source registry behaves as a keyed set for every source kind
@@ -111,5 +112,11 @@ def demo : List Op :=
 
 example : ((run {} demo).st.out.filterMap fun o => match o with | .ret c => some c | _ => none) = [0, 0, 0, -17, 0, 2, 0, -22, 1] := by
   decide +kernel
+
+
+/-- tie A: the guard prefixes of the entry points this property is about, re-extracted from the source on every run,
+are the ones the model transcribes (`Lm.Inst.CoreTie`) -/
+theorem C09_guards_in_source :
+    Lm.Inst.CoreTie.slice Lm.Generated.CoreGuards.guards ["register_mod_src", "deregister_mod_src", "m_mod_src_len", "m_mod_ps_subscribe", "m_mod_ps_unsubscribe", "m_mod_src_register_fd", "m_mod_src_deregister_fd", "m_mod_src_register_tmr", "m_mod_src_deregister_tmr", "m_mod_src_register_sgn", "m_mod_src_deregister_sgn", "m_mod_src_register_path", "m_mod_src_deregister_path", "m_mod_src_register_pid", "m_mod_src_deregister_pid", "m_mod_src_register_task", "m_mod_src_deregister_task", "m_mod_src_register_thresh", "m_mod_src_deregister_thresh"] = Lm.Inst.CoreTie.slice Lm.Inst.CoreTie.expected ["register_mod_src", "deregister_mod_src", "m_mod_src_len", "m_mod_ps_subscribe", "m_mod_ps_unsubscribe", "m_mod_src_register_fd", "m_mod_src_deregister_fd", "m_mod_src_register_tmr", "m_mod_src_deregister_tmr", "m_mod_src_register_sgn", "m_mod_src_deregister_sgn", "m_mod_src_register_path", "m_mod_src_deregister_path", "m_mod_src_register_pid", "m_mod_src_deregister_pid", "m_mod_src_register_task", "m_mod_src_deregister_task", "m_mod_src_register_thresh", "m_mod_src_deregister_thresh"] := by decide
 
 end Lm.Props.C09
